@@ -121,6 +121,7 @@ structure DState where
   parked   : Option (Nat × Nat × Nat) := none -- a ResizeVolume call stopped after it read the size: volume, target, size read
   idx      : List (Nat × List Nat) := []      -- volumes whose rows were partly deleted: volume_index of each remaining row, by position
   lastFailed : Option (Nat × Bool) := none   -- the previous line was a failed store of this root; was the root stored before?
+  zombie   : Bool := false                   -- the history was flagged at an expiry/prune line: reads that follow at once are still judged against the MODEL's references
   failedStores : Nat := 0
   readBacks : Nat := 0
   -- statistics
@@ -370,8 +371,20 @@ def stepCore (d : DState) (l : Line) : DState × List Verdict :=
     let cache := (getNat l.args "cache").getD 0
     let mode := (getStr l.args "mode").getD "meta"
     ({ d with m := init cache, mode := mode, dead := false, iOcc := [], iR1 := [], iR2 := [], iTmp := [], iLost := 0,
-              bufMap := [], acked := [], exempt := [], taint := [], lastEv := [], viaTemp := [], parked := none, idx := [], lastFailed := none, hists := d.hists + 1 }, [])
-  else if d.dead then (d, [])
+              bufMap := [], acked := [], exempt := [], taint := [], lastEv := [], viaTemp := [], parked := none, idx := [], lastFailed := none, zombie := false, hists := d.hists + 1 }, [])
+  else if d.dead then
+    -- the code dropped references (or slots) the model keeps; whatever was flagged there, the consequence C02 cares
+    -- about is whether the sectors the MODEL still counts as referenced can be read
+    if d.zombie && l.op == "read" then
+      match getNat l.args "r", getStr l.obs "c" with
+      | some r, some c =>
+        let res := (getStr l.obs "res").getD "ok"
+        let intact := res == "ok" && c == toString r
+        if referenced d.m r && !d.exempt.contains r && !intact then
+          ({ d with zombie := false }, [mono s!"read_intact/{situation d r}" s!"root={r},res={res},content={c} (still referenced in the model: the preceding expiry/prune step removed too much)"])
+        else (d, [])
+      | _, _ => (d, [])
+    else (d, [])
   else
   let a := l.args
   let o := l.obs
@@ -884,6 +897,11 @@ def stepCore (d : DState) (l : Line) : DState × List Verdict :=
 /-- one line; a failed store is remembered only until the next line (the read-back the harness makes at once) -/
 def step (d : DState) (l : Line) : DState × List Verdict :=
   let (d', vs) := stepCore d l
+  let d' :=
+    if ["reclaim", "expire1", "expire2", "expiret", "tick", "prune"].contains l.op then
+      (if !d.dead && d'.dead then { d' with zombie := true } else d')
+    else if ["read", "cache", "reset"].contains l.op then d'
+    else { d' with zombie := false }
   if ["write", "wbuf", "storetemp", "finish", "read", "reset"].contains l.op then (d', vs)
   else ({ d' with lastFailed := none }, vs)
 
